@@ -201,6 +201,7 @@ def main(tier, replay=None, selftest=False):
     sdl_path = os.path.join(base, "served.graphql")
     open(sdl_path, "w").write(render.sdl(schema))
     trace, written_files = [], []
+    st_done = False
     for n, c in enumerate(sel):
         ck.count()
         out = os.path.join(base, "out_%d.json" % n)
@@ -299,8 +300,8 @@ def main(tier, replay=None, selftest=False):
         else:
             if c["existing"] and file_state != "old":
                 problems.append("the existing output file was not left untouched (now `%s`)" % file_state)
-        if selftest and n == 2:
-            file_state = "corrupt"
+        if selftest and not st_done and c["output"] == "file" and (c["existing"] or rc == 0):
+            file_state, st_done = "corrupt", True     # a record whose file state the specification constrains
         trace.append({"isOneOf": c["isOneOf"], "specifyByUrl": c["specifyByUrl"], "auth": c["auth"], "headers": c["headers"],
                       "output": c["output"], "existing": c["existing"], "server": c["server"],
                       "obs": {"exit": 0 if rc == 0 else (2 if rc == 2 else 1), "file": file_state, "request": req_doc if req is not None else "none",
